@@ -1,4 +1,5 @@
 import Sentinel.Lemmas.HotConc
+import Sentinel.Lemmas.HotConcCap
 /-!
 # C06 — Hot-parameter concurrency is capped per value and its counters conserved
 (property-level theorems; helper lemmas in `Sentinel/Lemmas/HotConc.lean`, model in `Sentinel/Model/HotConc.lean`)
@@ -7,8 +8,8 @@ Reading guide.  `init rules` is the state right after `hotspot.LoadRules(rules)`
 counter cache per valid rule); `run s ops` executes a history of `Op.entry id res args atts` / `Op.exit id` /
 `Op.flowBlock res` with the code-shaped definitions the correspondence driver executes against `core/hotspot` +
 `api.Entry`.  `St.live` is the ledger the property speaks about: the entries that were admitted and have not been
-exited yet, with the arguments they were admitted with (the code has no such list; `live_from_history` ties it to the
-history).  `r.sel res args atts` is the value rule `r` selects from an entry (`Val.nil`: the rule does not apply or the
+exited yet, with the arguments they were admitted with (the code has no such list; `admitted_counted`,
+`blocked_not_counted` and `args_stable` tie it to the history).  `r.sel res args atts` is the value rule `r` selects from an entry (`Val.nil`: the rule does not apply or the
 entry lacks the argument — such a request is not limited by the rule); `liveOf r v L` counts the entries of `L` on the
 rule's resource whose selected value is `v`; `cellOf t.cache v` is the in-flight figure the code keeps for `v`;
 `r.thrOf v` is the specific item for `v` if there is one, else the general threshold.
@@ -31,6 +32,30 @@ theorem cell_eq_live (rules : List Rule) (ops : List Op) :
       cellOf t.cache v = (liveOf t.rule v (run (init rules) ops).live : Int) :=
   fun t ht hev v hv => (inv_run _ ops (inv_init rules)).1 t ht hev v hv
 
+/-- **no eviction below the capacity**: a controller that has been asked about at most `ParamsMaxCapacity`
+(default 4000) distinct values in the whole history — `valsOf r ops` lists the values rule `r` selects from the
+`entry`/`check` ops — has never evicted, so everything below applies to it. -/
+theorem no_evict_of_few_values (rules : List Rule) (ops : List Op) :
+    ∀ t ∈ (run (init rules) ops).tcs, (valsOf t.rule ops).dedup.length ≤ t.rule.cap → t.ev = false := by
+  intro t ht hcap
+  have hj := J_run ops (fun _ => []) (init rules) (by
+    intro t ht
+    simp only [init, load, List.mem_map] at ht
+    obtain ⟨r, _, rfl⟩ := ht
+    exact ⟨by simp [keys], by simp [keys], by simp⟩) t ht
+  cases hev : t.ev with
+  | false => rfl
+  | true =>
+    have := hj.2.2 hev
+    simp only [List.nil_append] at this
+    omega
+
+/-- conservation, stated on the history alone: at most `capacity` distinct values ⇒ cell = live -/
+theorem cell_eq_live_of_few_values (rules : List Rule) (ops : List Op) :
+    ∀ t ∈ (run (init rules) ops).tcs, (valsOf t.rule ops).dedup.length ≤ t.rule.cap → ∀ v, v ≠ Val.nil →
+      cellOf t.cache v = (liveOf t.rule v (run (init rules) ops).live : Int) :=
+  fun t ht hcap => cell_eq_live rules ops t ht (no_evict_of_few_values rules ops t ht hcap)
+
 /-- **returns to zero**: once every admitted entry has been exited, every cell is 0 -/
 theorem returns_to_zero (rules : List Rule) (ops : List Op) (hall : (run (init rules) ops).live = []) :
     ∀ t ∈ (run (init rules) ops).tcs, t.ev = false → ∀ v, v ≠ Val.nil → cellOf t.cache v = 0 := by
@@ -38,50 +63,53 @@ theorem returns_to_zero (rules : List Rule) (ops : List Op) (hall : (run (init r
   rw [cell_eq_live rules ops t ht hev v hv, hall]
   simp [liveOf]
 
+/-- no step changes the rules of the controllers -/
+theorem step_rules (s : St) (op : Op) : (step s op).tcs.map (·.rule) = s.tcs.map (·.rule) := by
+  cases op with
+  | entry id res a at' =>
+    simp only [step]; split
+    · rfl
+    · unfold entry; split
+      · rfl
+      · dsimp only; split
+        · exact checkTcs_rules ..
+        · simp only [List.map_map]
+          rw [← checkTcs_rules res a at' s.tcs]
+          apply List.map_congr_left
+          intro t _; simp
+  | exit id =>
+    simp only [step]; unfold exit; split
+    · rfl
+    · simp only [List.map_map]
+      apply List.map_congr_left
+      intro t _; simp
+  | flowBlock res => rfl
+  | check id res a at' =>
+    simp only [step]; split
+    · rfl
+    · unfold check; split
+      · rfl
+      · exact checkTcs_rules ..
+  | commit id =>
+    simp only [step]; unfold commit; split
+    · rfl
+    · split
+      · simp only [List.map_map]
+        apply List.map_congr_left
+        intro t _; simp
+      · rfl
+
+theorem run_rules (s : St) (ops : List Op) : (run s ops).tcs.map (·.rule) = s.tcs.map (·.rule) := by
+  induction ops generalizing s with
+  | nil => rfl
+  | cons op ops ih =>
+    show (run (step s op) ops).tcs.map (·.rule) = _
+    rw [ih, step_rules]
+
 /-- the controllers of a reachable state are, in order, those of the valid rules that were loaded -/
 theorem rules_fixed (rules : List Rule) (ops : List Op) :
     (run (init rules) ops).tcs.map (·.rule) = rules.filter Rule.valid := by
-  have key : ∀ (s : St) (ops : List Op), (run s ops).tcs.map (·.rule) = s.tcs.map (·.rule) := by
-    intro s ops
-    induction ops generalizing s with
-    | nil => rfl
-    | cons op ops ih =>
-      show (run (step s op) ops).tcs.map (·.rule) = _
-      rw [ih]
-      cases op with
-      | entry id res a at' =>
-        simp only [step]; split
-        · rfl
-        · unfold entry; split
-          · rfl
-          · dsimp only; split
-            · exact checkTcs_rules ..
-            · simp only [List.map_map]
-              rw [← checkTcs_rules res a at' s.tcs]
-              apply List.map_congr_left
-              intro t _; simp
-      | exit id =>
-        simp only [step]; unfold exit; split
-        · rfl
-        · simp only [List.map_map]
-          apply List.map_congr_left
-          intro t _; simp
-      | flowBlock res => rfl
-      | check id res a at' =>
-        simp only [step]; split
-        · rfl
-        · unfold check; split
-          · rfl
-          · exact checkTcs_rules ..
-      | commit id =>
-        simp only [step]; unfold commit; split
-        · rfl
-        · split
-          · simp only [List.map_map]
-            apply List.map_congr_left
-            intro t _; simp
-          · rfl
-  rw [key]
+  rw [run_rules]
   simp [init, load, List.map_map, Function.comp_def]
 
 /-- exiting every live entry (in any order the ledger lists them) empties the ledger -/
@@ -385,6 +413,140 @@ theorem args_stable (rules : List Rule) (ops : List Op) :
   · simp [init, load] at h
   · simp [init, load] at hp
   · exact h
+
+/-! ## the cap -/
+
+/-- a sequential history: every `api.Entry` runs to completion before the next op (no parked goroutines) -/
+def sequential : Op → Bool
+  | .check .. => false
+  | .commit .. => false
+  | _ => true
+
+theorem liveOf_eraseP_le (r : Rule) (v : Val) (q : Live → Bool) (L : List Live) :
+    liveOf r v (L.eraseP q) ≤ liveOf r v L := by
+  unfold liveOf
+  exact (List.eraseP_sublist (l := L)).countP_le
+
+/-- the cap as a state invariant -/
+def Capped (s : St) : Prop :=
+  ∀ t ∈ s.tcs, t.ev = false → ∀ v, v ≠ Val.nil → (liveOf t.rule v s.live : Int) ≤ t.rule.thrOf v
+
+theorem capped_step (s : St) (op : Op) (hseq : sequential op = true) (hinv : Inv s) (hc : Capped s)
+    (hpos : ∀ t ∈ s.tcs, ∀ v, 0 < t.rule.thrOf v) : Capped (step s op) := by
+  cases op with
+  | check => simp [sequential] at hseq
+  | commit => simp [sequential] at hseq
+  | flowBlock res => exact hc
+  | exit id =>
+    simp only [step]; unfold exit
+    split
+    · exact hc
+    · intro t' ht' hev v hv
+      simp only [List.mem_map] at ht'
+      obtain ⟨t, hm, rfl⟩ := ht'
+      rw [bump_ev] at hev
+      rw [bump_rule]
+      have := hc t hm hev v hv
+      have h2 := liveOf_eraseP_le t.rule v (fun e => e.id == id) s.live
+      show (liveOf t.rule v (s.live.eraseP _) : Int) ≤ _
+      omega
+  | entry id res a at' =>
+    simp only [step]
+    split
+    · exact hc
+    · by_cases hp : (entry s id res a at').2 = Res.pass
+      · -- admitted: every controller selecting a value had room for it
+        have hlive := admitted_counted s id res a at' hp
+        have hb : (checkTcs res a at' s.tcs).2 = false := by
+          unfold entry at hp
+          by_cases h1 : s.fb.contains res = true
+          · simp only [h1, if_true] at hp; cases hp
+          · by_cases h2 : (checkTcs res a at' s.tcs).2 = true
+            · simp only [h1, h2, Bool.false_eq_true, if_false, if_true] at hp; cases hp
+            · simpa using h2
+        have htcs : (entry s id res a at').1.tcs =
+            (s.tcs.map (fun t => t.touchFor res a at')).map (fun t => t.bump res a at' 1) := by
+          unfold entry
+          by_cases h1 : s.fb.contains res = true
+          · unfold entry at hp; simp only [h1, if_true] at hp; cases hp
+          · simp only [h1, hb, Bool.false_eq_true, if_false]
+            rw [checkTcs_pass res a at' s.tcs hb]
+        intro t' ht' hev v hv
+        rw [htcs] at ht'
+        simp only [List.map_map, List.mem_map, Function.comp] at ht'
+        obtain ⟨t, hm, rfl⟩ := ht'
+        rw [bump_ev] at hev
+        have hev0 := touchFor_ev t res a at' hev
+        rw [bump_rule, touchFor_rule, hlive, liveOf_cons]
+        have h0 := hc t hm hev0 v hv
+        by_cases hs : t.rule.sel res a at' = v
+        · -- this controller selected `v`: it did not object, so there was room
+          have hnv : t.violates res a at' = false := by
+            have := checkTcs_blocked res a at' s.tcs
+            rw [hb] at this
+            exact (List.any_eq_false.mp this.symm) t hm |> fun h => by simpa using h
+          have hvi := violates_iff t s.live res a at' (hinv.1 t hm) hev0 (fun _ => Or.inr (hpos t hm _))
+          have : ¬ (t.rule.sel res a at' ≠ Val.nil ∧
+              ¬ (liveOf t.rule (t.rule.sel res a at') s.live : Int) < t.rule.thrOf (t.rule.sel res a at')) := by
+            intro hcon; have := hvi.mpr hcon; rw [hnv] at this; cases this
+          rw [hs] at this
+          have hlt : (liveOf t.rule v s.live : Int) < t.rule.thrOf v := by
+            by_contra hcon; exact this ⟨hv, hcon⟩
+          simp only [hs, if_true]
+          push_cast; omega
+        · simp only [hs, if_false, Nat.add_zero]; exact h0
+      · -- not admitted: the ledger is unchanged, controllers were at most touched
+        have hlive := blocked_not_counted s id res a at' hp
+        intro t' ht' hev v hv
+        rw [hlive]
+        have : ∃ t ∈ s.tcs, Keeps t t' := by
+          unfold entry at ht'
+          by_cases h1 : s.fb.contains res = true
+          · simp only [h1, if_true] at ht'; exact ⟨t', ht', keeps_refl _⟩
+          · by_cases h2 : (checkTcs res a at' s.tcs).2 = true
+            · simp only [h1, h2, Bool.false_eq_true, if_false, if_true] at ht'
+              exact checkTcs_keeps res a at' s.tcs t' ht'
+            · unfold entry at hp; simp only [h1, h2, Bool.false_eq_true, if_false] at hp
+              exact absurd trivial hp
+        obtain ⟨t, hm, hr, hk⟩ := this
+        rw [hr]
+        exact hc t hm (hk hev).1 v hv
+
+/-- **C06, the cap.** In every sequential history (entries and exits in any order, any values, blocked entries and
+entries blocked by another slot in between) over rules whose thresholds are all positive, a controller that has not
+evicted never has more entries in flight for a value than the threshold configured for that value. (Threshold 0:
+`first_touch_witness`; beyond the capacity: `evict_witness`; goroutines racing through the check: `overshoot_witness`.) -/
+theorem capped_sequential (rules : List Rule) (ops : List Op) (hseq : ∀ op ∈ ops, sequential op = true)
+    (hpos : ∀ r ∈ rules, ∀ v, 0 < r.thrOf v) :
+    ∀ t ∈ (run (init rules) ops).tcs, t.ev = false → ∀ v, v ≠ Val.nil →
+      (liveOf t.rule v (run (init rules) ops).live : Int) ≤ t.rule.thrOf v := by
+  have key : ∀ (ops : List Op) (s : St), (∀ op ∈ ops, sequential op = true) → Inv s → Capped s →
+      (∀ t ∈ s.tcs, ∀ v, 0 < t.rule.thrOf v) → Capped (run s ops) := by
+    intro ops
+    induction ops with
+    | nil => intro s _ _ hc _; exact hc
+    | cons op ops ih =>
+      intro s hseq hinv hc hp
+      apply ih (step s op) (fun o ho => hseq o (List.mem_cons_of_mem _ ho)) (inv_step s op hinv)
+        (capped_step s op (hseq op (List.mem_cons_self ..)) hinv hc hp)
+      intro t ht
+      have : t.rule ∈ (step s op).tcs.map (·.rule) := List.mem_map_of_mem ht
+      rw [step_rules] at this
+      obtain ⟨t0, ht0, hr⟩ := List.mem_map.mp this
+      rw [← hr]; exact hp t0 ht0
+  apply key ops (init rules) hseq (inv_init rules)
+  · intro t ht _ v _
+    have : t.rule ∈ rules.filter Rule.valid := by
+      simp only [init, load, List.mem_map] at ht
+      obtain ⟨r, hr, rfl⟩ := ht; exact hr
+    have h := hpos _ (List.mem_of_mem_filter this) v
+    simp only [init, load, liveOf, List.countP_nil, Nat.cast_zero]
+    omega
+  · intro t ht v
+    have : t.rule ∈ rules.filter Rule.valid := by
+      simp only [init, load, List.mem_map] at ht
+      obtain ⟨r, hr, rfl⟩ := ht; exact hr
+    exact hpos _ (List.mem_of_mem_filter this) v
 
 /-! ## schedules -/
 
